@@ -191,7 +191,7 @@ def _inductive(v, prop):
 
 
 def check_C03(tier):
-    v = run_level_check("C03", tier, ["core_det", "core_noisy", "cons", "optvar", "optvar2", "script"],
+    v = run_level_check("C03", tier, ["core_det", "core_noisy", "cons", "optvar", "optvar2", "script", "stobads"],
                         design_cfgs=("BadsRun.cfg", "BadsRun_noisy.cfg"))
     _inductive(v, "C03")
     return v
@@ -203,7 +203,7 @@ def check_C04(tier):
 
 
 def check_C05(tier):
-    v = run_level_check("C05", tier, ["core_noisy", "core_det", "cons", "optvar"],
+    v = run_level_check("C05", tier, ["core_noisy", "core_det", "cons", "optvar", "stobads"],
                         design_cfgs=("BadsRun_noisy.cfg",))
     # FinalSamplesTaken and the budget with the reserve hold for every Budget / NFinal (Apalache)
     _inductive(v, "C05")
@@ -211,19 +211,19 @@ def check_C05(tier):
 
 
 def check_C13(tier):
-    v = run_level_check("C13", tier, ["core_det", "core_noisy", "optvar", "script"],
+    v = run_level_check("C13", tier, ["core_det", "core_noisy", "optvar", "script", "stobads"],
                         design_cfgs=("BadsRun.cfg", "BadsRun_noisy.cfg"))
     _inductive(v, "C13")
     return v
 
 
 def check_C19run(tier):
-    return run_level_check("C19", tier, ["core_det", "core_noisy", "cons", "optvar"],
+    return run_level_check("C19", tier, ["core_det", "core_noisy", "cons", "optvar", "stobads"],
                            design_cfgs=("BadsRun.cfg",))
 
 
 def check_C09(tier):
-    return run_level_check("C09", tier, ["core_det", "core_noisy", "cons", "steer", "optvar", "optvar2"], level="exploration",
+    return run_level_check("C09", tier, ["core_det", "core_noisy", "cons", "steer", "optvar", "optvar2", "stobads"], level="exploration",
                            design_cfgs=("BadsRun.cfg",))
 
 
